@@ -323,6 +323,45 @@ def _split_parallel(stmts):
     return out
 
 
+def _sort_in_place(stmts):
+    """X = <fresh list> ; X.sort(key=K, ...)  ->  X = sorted(<it>, key=K,
+    ...): the same list, named by the expression the ordering rules read."""
+    out = []
+    for st in stmts:
+        prev = out[-1] if out else None
+        if isinstance(st, ast.Expr) and isinstance(st.value, ast.Call) and \
+                isinstance(st.value.func, ast.Attribute) and \
+                st.value.func.attr == 'sort' and not st.value.args and \
+                isinstance(st.value.func.value, ast.Name) and \
+                isinstance(prev, ast.Assign) and len(prev.targets) == 1 and \
+                isinstance(prev.targets[0], ast.Name) and \
+                prev.targets[0].id == st.value.func.value.id:
+            val = prev.value
+            source = None
+            if isinstance(val, ast.Call) and \
+                    ast.unparse(val.func) == 'list' and \
+                    len(val.args) == 1 and not val.keywords:
+                source = val.args[0]
+            elif isinstance(val, (ast.ListComp, ast.List)):
+                source = val
+            name = prev.targets[0].id
+            if source is not None and not any(
+                    isinstance(n, ast.Name) and n.id == name
+                    for kw in st.value.keywords for n in ast.walk(kw.value)):
+                new = ast.Assign(
+                    targets=prev.targets,
+                    value=ast.Call(func=ast.Name(id='sorted',
+                                                 ctx=ast.Load()),
+                                   args=[source],
+                                   keywords=st.value.keywords))
+                ast.copy_location(new, prev)
+                ast.fix_missing_locations(new)
+                out[-1] = new
+                continue
+        out.append(st)
+    return out
+
+
 def _desugar_reduce(stmts):
     """T = functools.reduce(F, IT, INIT)  ->  T = INIT
                                              for x in IT: T = F(T, x)
@@ -597,6 +636,7 @@ class Inliner(object):
         self.counter = 0
         self.inlined = []
         self._sites = {}
+        self._one_caller = {}
         self._vec = {}
         self.taken = set()
         self.fn_stored = set()
@@ -615,7 +655,14 @@ class Inliner(object):
             return None     # interpreted by the normaliser
         # an extracted helper has one call site (two at most); a helper
         # called from many places is a shared primitive of the module
-        if self.call_sites(callee) > 2:
+        # (a tiny private one - a parameterised guard or step repeated a
+        # few times - may have up to four)
+        # few times inside one routine - may have up to four)
+        sites = self.call_sites(callee)
+        tiny = callee.name.startswith('_') and \
+            _count_stmts(callee.raw.body) <= 6 and \
+            self._one_caller.get(callee.fq, False)
+        if sites > (4 if tiny else 2):
             return None
         raw = callee.raw
         args = raw.args
@@ -657,19 +704,33 @@ class Inliner(object):
         key = callee.fq
         if key not in self._sites:
             count = 0
+            callers = set()
             for mod in list(self.index.modules.values()):
                 if callee.name not in mod.source:
                     continue
-                for sub in ast.walk(mod.tree):
-                    if isinstance(sub, ast.Call):
-                        fexpr = sub.func
-                        name = fexpr.attr if isinstance(
-                            fexpr, ast.Attribute) else (
-                                fexpr.id if isinstance(fexpr, ast.Name)
-                                else None)
-                        if name == callee.name:
-                            count += 1
+                # (enclosing top-level def or method, call) pairs
+                todo = [(None, mod.tree)]
+                while todo:
+                    owner, node = todo.pop()
+                    for child in ast.iter_child_nodes(node):
+                        inner = owner
+                        if owner is None and isinstance(
+                                child, (ast.FunctionDef,
+                                        ast.AsyncFunctionDef)):
+                            inner = (mod.name, child.lineno, child.name)
+                        if isinstance(child, ast.Call):
+                            fexpr = child.func
+                            name = fexpr.attr if isinstance(
+                                fexpr, ast.Attribute) else (
+                                    fexpr.id if isinstance(fexpr, ast.Name)
+                                    else None)
+                            if name == callee.name:
+                                count += 1
+                                callers.add(inner)
+                        todo.append((inner, child))
             self._sites[key] = count
+            self._one_caller[key] = len(callers) == 1 and \
+                None not in callers
         return self._sites[key]
 
     def expand(self, caller, call, callee, result, stack, cond=False,
@@ -796,7 +857,7 @@ class Inliner(object):
         if len(stack) > MAX_DEPTH:
             return stmts
         out = []
-        for stmt in _iterator_temps(_desugar_reduce(stmts)):
+        for stmt in _iterator_temps(_desugar_reduce(_sort_in_place(stmts))):
             out.extend(self.stmt(caller, stmt, stack))
         return _fuse(_resugar(_split_parallel(out)))
 
@@ -1151,7 +1212,24 @@ class Inliner(object):
         call = None
         result = None
         tail = []
-        if isinstance(stmt, ast.Expr) and isinstance(stmt.value, ast.Call):
+        if isinstance(stmt, ast.Expr) and isinstance(stmt.value, ast.Call) \
+                and isinstance(stmt.value.func, ast.Attribute) and \
+                len(stmt.value.args) == 1 and not stmt.value.keywords and \
+                isinstance(stmt.value.args[0], ast.Call) and \
+                _simple_arg(stmt.value.func.value) and \
+                self.inlinable(caller, stmt.value.args[0], stack) \
+                is not None:
+            # acc.extend(helper(...))  ->  _r = helper(...) ; acc.extend(_r)
+            # (the receiver is a plain name / attribute: looking it up
+            # after the helper ran makes no difference)
+            call = stmt.value.args[0]
+            callee = self.inlinable(caller, call, stack)
+            result = self._fresh(callee.name)
+            outer = copy.copy(stmt.value)
+            outer.args = [ast.copy_location(
+                ast.Name(id=result, ctx=ast.Load()), call)]
+            tail = [ast.copy_location(ast.Expr(value=outer), stmt)]
+        elif isinstance(stmt, ast.Expr) and isinstance(stmt.value, ast.Call):
             call = stmt.value
         elif isinstance(stmt, ast.Assign) and len(stmt.targets) == 1 and \
                 isinstance(stmt.targets[0], ast.Name) and \
@@ -1587,6 +1665,166 @@ def fold_name_copies(fdef, func):
     return fdef
 
 
+def fold_lookup_default(fdef):
+    """X = D.pop(K, None) ; if X is not None: BODY [else: ELSE]
+       ->  if K in D: X = D[K] ; del D[K] ; BODY  [else: ELSE]
+    (also D.get(K), and the tests `X is None`, `X`, `not X`) for a local
+    dictionary D of this function whose stored values are all non-empty
+    tuple displays: a looked-up value is then never None / falsy, and the
+    test of the result is the membership test."""
+    params = set(a.arg for a in fdef.args.args + fdef.args.kwonlyargs)
+    stores, created, escaped = {}, {}, set()
+    for node in ast.walk(fdef):
+        if isinstance(node, ast.Assign):
+            for tgt in node.targets:
+                if isinstance(tgt, ast.Subscript) and \
+                        isinstance(tgt.value, ast.Name):
+                    stores.setdefault(tgt.value.id, []).append(node.value)
+                elif isinstance(tgt, ast.Name):
+                    created.setdefault(tgt.id, []).append(node.value)
+                else:
+                    for leaf in ast.walk(tgt):
+                        if isinstance(leaf, ast.Name):
+                            escaped.add(leaf.id)
+        elif isinstance(node, ast.Call):
+            for arg in list(node.args) + [k.value for k in node.keywords]:
+                for leaf in ast.walk(arg):
+                    if isinstance(leaf, ast.Name):
+                        escaped.add(leaf.id)
+            if isinstance(node.func, ast.Attribute) and \
+                    isinstance(node.func.value, ast.Name) and \
+                    node.func.attr in ('update', 'setdefault'):
+                escaped.add(node.func.value.id)
+        elif isinstance(node, (ast.AugAssign, ast.For, ast.With,
+                               ast.Return, ast.Yield)):
+            sub = node.target if isinstance(node, (ast.AugAssign,
+                                                   ast.For)) else None
+            if isinstance(node, (ast.Return, ast.Yield)):
+                sub = node.value
+            for leaf in ast.walk(sub) if sub is not None else ():
+                if isinstance(leaf, ast.Name):
+                    escaped.add(leaf.id)
+
+    def plain_dict(name):
+        if name in params or name in escaped:
+            return False
+        makers = created.get(name, [])
+        if not makers or not all(
+                (isinstance(m, ast.Dict) and not m.keys) or
+                (isinstance(m, ast.Call) and not m.args and not m.keywords
+                 and ast.unparse(m.func) in ('dict',
+                                             'collections.OrderedDict'))
+                for m in makers):
+            return False
+        vals = stores.get(name, [])
+        return bool(vals) and all(isinstance(v, ast.Tuple) and v.elts
+                                  for v in vals)
+
+    def uses_after(name, stmts):
+        return any(isinstance(n, ast.Name) and n.id == name
+                   for st in stmts for n in ast.walk(st))
+
+    def rewrite(block):
+        out = []
+        idx = 0
+        while idx < len(block):
+            st = block[idx]
+            nxt = block[idx + 1] if idx + 1 < len(block) else None
+            hit = None
+            if isinstance(st, ast.Assign) and len(st.targets) == 1 and \
+                    isinstance(st.targets[0], ast.Name) and \
+                    isinstance(st.value, ast.Call) and \
+                    isinstance(st.value.func, ast.Attribute) and \
+                    isinstance(st.value.func.value, ast.Name) and \
+                    not st.value.keywords and isinstance(nxt, ast.If):
+                call = st.value
+                meth = call.func.attr
+                name = st.targets[0].id
+                okargs = (meth == 'pop' and len(call.args) == 2 and
+                          isinstance(call.args[1], ast.Constant) and
+                          call.args[1].value is None) or \
+                    (meth == 'get' and (len(call.args) == 1 or (
+                        len(call.args) == 2 and
+                        isinstance(call.args[1], ast.Constant) and
+                        call.args[1].value is None)))
+                key = call.args[0] if call.args else None
+                test = nxt.test
+                found = None
+                if isinstance(test, ast.Name) and test.id == name:
+                    found = True
+                elif isinstance(test, ast.UnaryOp) and \
+                        isinstance(test.op, ast.Not) and \
+                        isinstance(test.operand, ast.Name) and \
+                        test.operand.id == name:
+                    found = False
+                elif isinstance(test, ast.Compare) and \
+                        len(test.ops) == 1 and \
+                        isinstance(test.left, ast.Name) and \
+                        test.left.id == name and \
+                        isinstance(test.comparators[0], ast.Constant) and \
+                        test.comparators[0].value is None:
+                    if isinstance(test.ops[0], ast.IsNot):
+                        found = True
+                    elif isinstance(test.ops[0], ast.Is):
+                        found = False
+                if okargs and found is not None and \
+                        isinstance(key, (ast.Name, ast.Attribute)) and \
+                        not any(isinstance(n, ast.Name) and n.id == name
+                                for n in ast.walk(key)) and \
+                        plain_dict(call.func.value.id):
+                    hit = (call, meth, name, key, found)
+            if hit is None:
+                for field in ('body', 'orelse', 'finalbody'):
+                    sub = getattr(st, field, None)
+                    if isinstance(sub, list) and sub and \
+                            isinstance(sub[0], ast.stmt):
+                        setattr(st, field, rewrite(sub))
+                for hdl in getattr(st, 'handlers', None) or ():
+                    hdl.body = rewrite(hdl.body)
+                out.append(st)
+                idx += 1
+                continue
+            call, meth, name, key, found = hit
+            dname = call.func.value.id
+            yes = nxt.body if found else nxt.orelse
+            no = nxt.orelse if found else nxt.body
+            lookup = ast.Assign(
+                targets=[ast.Name(id=name, ctx=ast.Store())],
+                value=ast.Subscript(
+                    value=ast.Name(id=dname, ctx=ast.Load()),
+                    slice=copy.deepcopy(key), ctx=ast.Load()))
+            pre = [lookup]
+            if meth == 'pop':
+                pre.append(ast.Delete(targets=[ast.Subscript(
+                    value=ast.Name(id=dname, ctx=ast.Load()),
+                    slice=copy.deepcopy(key), ctx=ast.Del())]))
+            rest = block[idx + 2:]
+            other = list(no)
+            if uses_after(name, list(no) + rest):
+                other = [ast.Assign(
+                    targets=[ast.Name(id=name, ctx=ast.Store())],
+                    value=ast.Constant(value=None))] + other
+            new = ast.If(
+                test=ast.Compare(left=copy.deepcopy(key), ops=[ast.In()],
+                                 comparators=[ast.Name(id=dname,
+                                                       ctx=ast.Load())]),
+                body=pre + rewrite(list(yes)), orelse=rewrite(other))
+            for node in ast.walk(new):
+                if not hasattr(node, 'lineno'):
+                    ast.copy_location(node, nxt)
+            ast.copy_location(new, nxt)
+            for part in pre + other[:1]:
+                for node in ast.walk(part):
+                    ast.copy_location(node, st)
+            if not new.body:
+                new.body = [ast.copy_location(ast.Pass(), nxt)]
+            out.append(new)
+            idx += 2
+        return out
+    fdef.body = rewrite(fdef.body)
+    return fdef
+
+
 def inline_function(index, func, resolver):
     """Deep copy of func.raw with private helpers inlined; returns
     (new FunctionDef, [inlined callee names])."""
@@ -1599,6 +1837,7 @@ def inline_function(index, func, resolver):
                     if isinstance(n, ast.Name)) | set(
                         a.arg for a in func.raw.args.args)
     node.body = inl.process(func, node.body, [func.fq])
+    node = fold_lookup_default(node)
     node = fold_attribute_aliases(node, _volatile_attrs(func.module))
     if inl.inlined:
         # aliases introduced by unrolling / inlining (T = <yielded name>)
